@@ -1,4 +1,5 @@
 import PMV.Core.Arr
+import PMV.Model.Algebra
 /-
   Operator dispatch and axis alignment of polymath/qube.py:2879-3744 (+ Boolean/Matrix/Matrix3 overrides), as an
   executable, code-shaped model.  Mathlib-free.
@@ -165,6 +166,21 @@ def insOnes (s : Shape) (p r : Nat) : Shape := s.take p ++ List.replicate r 1 ++
 
 /-! ### addition / subtraction (qube.py:2879-2918, 2995-3043) -/
 
+/-- the part of `Qube.__add__` / `__sub__` after the operand conversion: "Verify compatibility" and "Construct the
+    result" (qube.py:2895-2913); `orig` is `original_arg` (it only selects the exception class) -/
+def addCore (self arg' orig : Desc) : M Res := do
+  if !unitsCanMatch self.units arg'.units then throw .valueError
+  if self.numer != arg'.numer then
+    if self.cls != arg'.cls then throw (unsupported self orig)
+    throw .valueError
+  if self.denom != arg'.denom then throw .valueError
+  -- self._values_ + arg._values_ : full NumPy broadcasting of the two full shapes
+  match bcast self.full arg'.full with
+  | none => throw .valueError
+  | some out =>
+    finish self.cls (promote self.kind arg'.kind) (out.take (out.length - self.rank)) self.numer self.denom
+      (unitsPresent self.units arg'.units) (.ew false 0 0 0 0)
+
 /-- `Qube.__add__` / `Qube.__sub__` with `self` not a Boolean -/
 def addSub (self arg : Desc) : M Res := do
   -- "Handle a simple right-hand value": rank 0 and a Python number
@@ -176,17 +192,7 @@ def addSub (self arg : Desc) : M Res := do
     else match asThisType self arg with
       | .ok x => pure x
       | .error _ => throw (unsupported self arg)
-  if !unitsCanMatch self.units arg'.units then throw .valueError
-  if self.numer != arg'.numer then
-    if self.cls != arg'.cls then throw (unsupported self arg)
-    throw .valueError
-  if self.denom != arg'.denom then throw .valueError
-  -- self._values_ + arg._values_ : full NumPy broadcasting of the two full shapes
-  match bcast self.full arg'.full with
-  | none => throw .valueError
-  | some out =>
-    finish self.cls (promote self.kind arg'.kind) (out.take (out.length - self.rank)) self.numer self.denom
-      (unitsPresent self.units arg'.units) (.ew false 0 0 0 0)
+  addCore self arg' arg
 
 /-! ### multiplication (qube.py:3115-3269) -/
 
@@ -426,24 +432,27 @@ def elemFn : OpSym → Int → Int → Int
 def ewValues (op : OpSym) (pa ra pb rb : Nat) (A B : Arr Int) : Option (Arr Int) :=
   Arr.map2 (elemFn op) (insArr A pa ra) (insArr B pb rb)
 
-/-- sum of `f k` for `k < n` -/
-def sumRange (n : Nat) (f : Nat → Int) : Int := (List.range n).foldl (fun acc k => acc + f k) 0
-
-/-- values of the matrix path: contraction of the last numerator axis of A with the first numerator axis of B;
-    result index = leading ++ A's other numerator axes ++ B's other numerator axes ++ denominators -/
-def dotValues (a b : Desc) (out : Shape) (A B : Arr Int) : Arr Int :=
-  let n := a.numer.getLast?.getD 0
-  let la := a.numer.length - 1
-  let lb := b.numer.length - 1
-  let numer := a.numer.dropLast ++ b.numer.drop 1
-  ⟨out ++ numer ++ a.denom ++ b.denom, fun idx =>
-    let i := idx.take out.length
-    let rest := idx.drop out.length
-    let ja := rest.take la
-    let jb := (rest.drop la).take lb
-    let da := (rest.drop (la + lb)).take a.denom.length
-    let db := rest.drop (la + lb + a.denom.length)
-    sumRange n fun k =>
-      A.get (bidx a.shape i ++ ja ++ [k] ++ da) * B.get (bidx b.shape i ++ [k] ++ jb ++ db)⟩
+/-- `Qube.dot(self, arg, -1, 0)` on the FULL value arrays, step by step (math_ops.py:215-232):
+    `array1 = arg1._values_.reshape(shape1 + numer1 + (nrank2-1)*(1,) + denom1 + drank2*(1,))`,
+    `array2 = arg2._values_.reshape(shape2 + (nrank1-1)*(1,) + numer2 + drank1*(1,) + denom2)`,
+    both contraction axes rolled to the end (`np.rollaxis(array, k, array.ndim)` with `k1 = a1 + len(shape1)`,
+    `k2 = a2 + len(shape2) + nrank1 - 1`), `array1 * array2` under FULL NumPy broadcasting, `np.sum(…, axis=-1)`.
+    The building blocks `rollEnd` / `sumLast` are those of `PMV/Model/Algebra.lean` (C16). -/
+def dotFull (a b : Desc) (A B : Arr Int) : Option (Arr Int) :=
+  let la := a.shape.length
+  let lb := b.shape.length
+  let n1 := a.numer.length
+  let n2 := b.numer.length
+  let array1 : Arr Int :=
+    ⟨a.shape ++ (a.numer ++ List.replicate (n2 - 1) 1 ++ a.denom ++ List.replicate b.denom.length 1),
+     fun i => A.get (i.take (la + n1) ++ (i.drop (la + n1 + (n2 - 1))).take a.denom.length)⟩
+  let array2 : Arr Int :=
+    ⟨b.shape ++ (List.replicate (n1 - 1) 1 ++ b.numer ++ List.replicate a.denom.length 1 ++ b.denom),
+     fun i => B.get (i.take lb ++ ((i.drop (lb + (n1 - 1))).take n2 ++ i.drop (lb + (n1 - 1) + n2 + a.denom.length)))⟩
+  let k1 := la + (n1 - 1)
+  let k2 := lb + (0 + (n1 - 1))
+  let r1 := Algebra.rollEnd k1 array1
+  let r2 := Algebra.rollEnd k2 array2
+  (Arr.map2 (· * ·) r1 r2).map Algebra.sumLast
 
 end PMV.Dispatch
